@@ -174,6 +174,19 @@ func (set *SortedSet) AddOrUpdate(
 
 	if strings.EqualFold(inc, "incr") {
 		for _, m := range members {
+			// INCR obeys the same conditions as a plain update: XX never adds, NX never updates,
+			// GT/LT only let the score of an existing member move one way.
+			if !set.Contains(m.Value) && strings.EqualFold(policy, "xx") {
+				return count, nil
+			}
+			if set.Contains(m.Value) {
+				if strings.EqualFold(policy, "nx") {
+					return count, nil
+				}
+				if (strings.EqualFold(comp, "gt") && m.Score <= 0) || (strings.EqualFold(comp, "lt") && m.Score >= 0) {
+					return count, nil
+				}
+			}
 			if !set.Contains(m.Value) {
 				// If the member is not contained, add it with the increment as its Score
 				set.members[m.Value] = MemberObject{
